@@ -364,7 +364,7 @@ Section TA.
       wf_field D f = true -> fd_kind f = KElement -> var_facts f cns var -> decl_ns cns (cd, f) = cns ->
       typed_item k f x = true ->
       (forall c' fs', x = VObj c' fs' -> good k handed cns (Some (field_qname f cns)) x = true) ->
-      (5 * k + 3 <= fuel)%nat ->
+      (5 * k + 2 <= fuel)%nat ->
       exists evs, run' fuel (CAnyType x var) = Ok evs
                   /\ norm_nil evs = spec_item cv D (spec_object cv D ign k cns) cns (cd, f) x
                   /\ closed evs = true /\ starts_content evs = true /\ evs <> [].
@@ -474,7 +474,7 @@ Section TA.
       decl_ns cns (cd, f) = cns ->
       forallb (typed_item k f) l = true ->
       (forall c' fs', In (VObj c' fs') l -> good k handed cns (Some (field_qname f cns)) (VObj c' fs') = true) ->
-      (5 * k + 4 <= F)%nat ->
+      (5 * k + 3 <= F)%nat ->
       exists evs, concatM (fun x => run' F (CValue x var)) l = Ok evs
                   /\ norm_nil evs = flat_map (spec_item cv D (spec_object cv D ign k cns) cns (cd, f)) l
                   /\ nice evs.
@@ -530,7 +530,7 @@ Section TA.
                        \/ exists t l, lookup fs (fd_name f) = VList t l /\ In (VObj c' fs') l) ->
                       good k handed cns (Some (field_qname f cns)) (VObj c' fs') = true) ->
       (forall t, lookup fs (fd_name f) = VList t [] -> fd_tokens f && fd_list f && fd_nillable f = false) ->
-      (5 * k + 5 <= fuel)%nat ->
+      (5 * k + 4 <= fuel)%nat ->
       exists evs, concatM (step fuel) (emit var (lookup fs (fd_name f))) = Ok evs
                   /\ norm_nil evs = spec_plain cv D (spec_object cv D ign k cns) cns fs (cd, f)
                   /\ nice evs.
@@ -693,5 +693,331 @@ Section TA.
     Qed.
 
   End Level.
+
+  (* ---------------------------------------------------------------- the guard clauses, unfolded *)
+  Definition sub_all (P : value -> bool) (X : value) : bool :=
+    match X with VList _ l => forallb P l | x => P x end.
+  Definition on_obj (P : value -> bool) (x : value) : bool := match x with VObj _ _ => P x | _ => true end.
+
+  Lemma cache_inv k c fs cd handed over :
+    find_cdesc D c = Some cd ->
+    cache_consistent D pns (S k) handed over (VObj c fs) = true ->
+    (match cd_meta_ns cd with Some _ => true | None => ostr_eqb (some_ns (pns c)) handed end) = true
+    /\ forall f, In f (cd_fields cd) ->
+          sub_all (on_obj (cache_consistent D pns k
+                             (ns_of (match over with Some q => q | None => clark (class_ns cd handed) (class_local cd) end))
+                             (Some (field_qname f (class_ns cd handed)))))
+                  (lookup fs (fd_name f)) = true.
+  Proof.
+    intros Hc H. cbn [cache_consistent] in H. rewrite Hc in H. apply andb_true_iff in H as [H1 H2].
+    split; [exact H1|]. intros f Hin. rewrite forallb_forall in H2. specialize (H2 f Hin).
+    unfold sub_all, on_obj. destruct (lookup fs (fd_name f)); exact H2.
+  Qed.
+
+  Lemma inherit_inv k c fs cd handed ctx over :
+    find_cdesc D c = Some cd ->
+    inherit_consistent D (S k) handed ctx over (VObj c fs) = true ->
+    (match cd_meta_ns cd with Some _ => true | None => ostr_eqb handed ctx end) = true
+    /\ forall f, In f (cd_fields cd) ->
+          sub_all (on_obj (inherit_consistent D k
+                             (ns_of (match over with Some q => q | None => clark (class_ns cd ctx) (class_local cd) end))
+                             (class_ns cd ctx) (Some (field_qname f (class_ns cd ctx)))))
+                  (lookup fs (fd_name f)) = true.
+  Proof.
+    intros Hc H. cbn [inherit_consistent] in H. rewrite Hc in H. apply andb_true_iff in H as [H1 H2].
+    split; [exact H1|]. intros f Hin. rewrite forallb_forall in H2. specialize (H2 f Hin).
+    unfold sub_all, on_obj. destruct (lookup fs (fd_name f)); exact H2.
+  Qed.
+
+  Lemma tokens_inv k c fs cd :
+    find_cdesc D c = Some cd ->
+    token_lists_ok D (S k) (VObj c fs) = true ->
+    forall f, In f (cd_fields cd) ->
+      (forall t, lookup fs (fd_name f) = VList t [] -> fd_tokens f && fd_list f && fd_nillable f = false)
+      /\ sub_all (on_obj (token_lists_ok D k)) (lookup fs (fd_name f)) = true.
+  Proof.
+    intros Hc H f Hin. cbn [token_lists_ok] in H. rewrite Hc in H. rewrite forallb_forall in H. specialize (H f Hin).
+    unfold sub_all, on_obj. destruct (lookup fs (fd_name f)) as [| |t l| | | |]; try (split; [intros; discriminate|exact H]).
+    destruct l as [|x l].
+    - split; [intros _ _; apply negb_true_iff; exact H|reflexivity].
+    - split; [intros; discriminate|exact H].
+  Qed.
+
+  (* ---------------------------------------------------------------- all fields of one object *)
+  Lemma concatM_app {A} (g : A -> gres (list wevent)) a b xs ys :
+    concatM g a = Ok xs -> concatM g b = Ok ys -> concatM g (a ++ b) = Ok (xs ++ ys).
+  Proof.
+    unfold concatM. revert xs. induction a as [|x a IH]; intros xs Ha Hb; cbn [app mapM gbind] in *.
+    - injection Ha as <-. exact Hb.
+    - destruct (g x) as [y|e]; cbn [gbind] in *; [|discriminate Ha].
+      destruct (mapM g a) as [zs|e]; cbn [gbind] in *; [|discriminate Ha].
+      injection Ha as <-. specialize (IH (concat zs) eq_refl Hb).
+      destruct (mapM g (a ++ b)) as [ws|e]; cbn [gbind] in *; [|discriminate IH].
+      injection IH as IH. cbn [concat]. rewrite IH, app_assoc. reflexivity.
+  Qed.
+
+  Lemma nice_app a b : nice a -> nice b -> nice (a ++ b).
+  Proof.
+    intros [Ha1 Ha2] [Hb1 Hb2]. split; [apply closed_app_nil; assumption|].
+    destruct a; [exact Hb2|exact Ha2].
+  Qed.
+
+  Lemma attrs_all k c fs cd fl vars :
+    In cd (md_classes D) -> oplain (class_P cd) -> map fst fs = map fd_name (cd_fields cd) ->
+    (forall f, In f fl -> In f (cd_fields cd) /\ typed_field k f (lookup fs (fd_name f)) = true) ->
+    Forall2 (var_of cd) fl vars ->
+    concatM (attr_step cv u (VObj c fs) ign) (filter (v_is KAttribute) vars)
+    = Ok (flat_map (fun f => if is_kind KAttribute f
+                             then spec_attribute cv D ign f (some_ns (class_P cd)) (lookup fs (fd_name f)) else []) fl).
+  Proof.
+    intros Hcd HP Hn Hf HR. induction HR as [|f var fl' vars' Hv _ IH]; [reflexivity|].
+    destruct (Hf f (or_introl eq_refl)) as [Hin Ht].
+    pose proof (wfc_fields D cd (wf_class_of cd Hcd) f Hin) as Hwff.
+    destruct Hv as [i ->].
+    pose proof (build_var_facts D i (class_P cd) f Hwff HP) as VF.
+    cbn [filter flat_map]. unfold v_is at 1. rewrite (vf_kind f _ _ VF). unfold is_kind at 1.
+    specialize (IH (fun g Hg => Hf g (or_intror Hg))).
+    destruct (fd_kind f) eqn:Hk; try exact IH.
+    change (build_var i (class_P cd) f :: filter (v_is KAttribute) vars')
+      with ([build_var i (class_P cd) f] ++ filter (v_is KAttribute) vars').
+    apply concatM_app; [|exact IH].
+    unfold concatM. cbn [mapM].
+    rewrite (attr_step_ok k c fs cd f _ Hcd Hin Hk (ex_intro _ i eq_refl) HP Hn Ht). cbn [gbind concat].
+    rewrite app_nil_r. reflexivity.
+  Qed.
+
+  Lemma next_value_noseq obj vars (X : xvar -> value) :
+    (forall var, In var vars -> v_sequence var = None /\ getattr obj (v_name var) = Ok (X var)) ->
+    forall fuel, (length vars < fuel)%nat ->
+    next_value_loop fuel obj vars = Ok (flat_map (fun var => emit var (X var)) vars).
+  Proof.
+    induction vars as [|var vars IH]; intros H fuel Hf; [destruct fuel; [lia|reflexivity]|].
+    destruct fuel as [|fuel]; [lia|]. cbn [next_value_loop flat_map].
+    destruct (H var (or_introl eq_refl)) as [Hs Hg]. rewrite Hs, Hg. cbn [gbind].
+    rewrite IH; [reflexivity| |cbn in Hf; lia]. intros w Hw. apply H. right. exact Hw.
+  Qed.
+
+  Lemma content_all k handed cns
+        (IHobj : forall fuel c' fs' fq fnil,
+            (5 * k <= fuel)%nat -> fq <> [] -> good k handed cns (Some fq) (VObj c' fs') = true ->
+            renders fuel k cns (Some fq) fnil (VObj c' fs'))
+        fs cd fl vars F :
+    In cd (md_classes D) -> oplain (class_P cd) -> some_ns (class_P cd) = cns ->
+    (forall f, decl_ns cns (cd, f) = cns) ->
+    (forall f, In f fl ->
+       In f (cd_fields cd) /\ typed_field k f (lookup fs (fd_name f)) = true
+       /\ (forall c' fs', (lookup fs (fd_name f) = VObj c' fs'
+                            \/ exists t l, lookup fs (fd_name f) = VList t l /\ In (VObj c' fs') l) ->
+                           good k handed cns (Some (field_qname f cns)) (VObj c' fs') = true)
+       /\ (forall t, lookup fs (fd_name f) = VList t [] -> fd_tokens f && fd_list f && fd_nillable f = false)) ->
+    Forall2 (var_of cd) fl vars -> (5 * k + 4 <= F)%nat ->
+    exists evs,
+      concatM (step F) (flat_map (fun var => emit var (lookup fs (v_name var)))
+                                 (filter (fun v => negb (v_is KAttribute v)) vars)) = Ok evs
+      /\ norm_nil evs = flat_map (spec_plain cv D (spec_object cv D ign k cns) cns fs)
+                                  (map (fun f => (cd, f)) (filter (fun f => is_content_kind (fd_kind f)) fl))
+      /\ nice evs.
+  Proof.
+    intros Hcd HP Hcns Hdecl Hf HR HF. induction HR as [|f var fl' vars' Hv _ IH].
+    - exists []. repeat split; reflexivity.
+    - destruct (Hf f (or_introl eq_refl)) as [Hin [Ht [Hg Htl]]].
+      pose proof (wfc_fields D cd (wf_class_of cd Hcd) f Hin) as Hwff.
+      destruct Hv as [i ->].
+      pose proof (build_var_facts D i (class_P cd) f Hwff HP) as VF. rewrite Hcns in VF.
+      destruct (IH (fun g Hg' => Hf g (or_intror Hg'))) as [evs2 [H21 [H22 H23]]].
+      cbn [filter]. unfold v_is at 1. rewrite (vf_kind f _ _ VF).
+      destruct (wff_kind D f (wf_field_inv D f Hwff)) as [Hk|[Hk|Hk]]; rewrite Hk; cbn [negb is_content_kind map flat_map].
+      + (* Text *)
+        destruct (field_ok k handed cns IHobj cd f _ fs F Hwff (or_intror Hk) VF (Hdecl f) Ht Hg Htl HF) as [evs1 [H11 [H12 H13]]].
+        rewrite (vf_name f _ _ VF). exists (evs1 ++ evs2). split; [apply concatM_app; assumption|]. split.
+        * rewrite norm_nil_app by (apply H13). rewrite H12, H22. reflexivity.
+        * apply nice_app; assumption.
+      + destruct (field_ok k handed cns IHobj cd f _ fs F Hwff (or_introl Hk) VF (Hdecl f) Ht Hg Htl HF) as [evs1 [H11 [H12 H13]]].
+        rewrite (vf_name f _ _ VF). exists (evs1 ++ evs2). split; [apply concatM_app; assumption|]. split.
+        * rewrite norm_nil_app by (apply H13). rewrite H12, H22. reflexivity.
+        * apply nice_app; assumption.
+      + exists evs2. repeat split; try assumption; apply H23.
+  Qed.
+
+  (* ---------------------------------------------------------------- occurrences of nested objects *)
+  Definition occurs (x X : value) : Prop := X = x \/ exists t l, X = VList t l /\ In x l.
+
+  Lemma sub_all_occ P X c' fs' :
+    sub_all (on_obj P) X = true -> occurs (VObj c' fs') X -> P (VObj c' fs') = true.
+  Proof.
+    intros H [->|[t [l [-> Hin]]]]; [exact H|].
+    cbn [sub_all] in H. rewrite forallb_forall in H. exact (H _ Hin).
+  Qed.
+
+  Lemma typed_occ k f X c' fs' :
+    typed_field k f X = true -> occurs (VObj c' fs') X -> typed_value D k (VObj c' fs') = true.
+  Proof.
+    assert (Hi : forall x, typed_item k f x = true -> x = VObj c' fs' -> typed_value D k (VObj c' fs') = true).
+    { intros x Hx ->. unfold typed_item in Hx. destruct (fd_type f); try discriminate Hx.
+      apply andb_true_iff in Hx as [_ Hx]. exact Hx. }
+    intros Ht [->|[t [l [-> Hin]]]].
+    - unfold typed_field in Ht. apply andb_true_iff in Ht as [_ Ht]. apply (Hi _ Ht eq_refl).
+    - unfold typed_field in Ht. destruct (fd_tokens f).
+      + destruct (fd_list f); rewrite forallb_forall in Ht; specialize (Ht _ Hin).
+        * discriminate Ht.
+        * apply (Hi _ Ht eq_refl).
+      + apply andb_true_iff in Ht as [_ Ht]. rewrite forallb_forall in Ht. apply (Hi _ (Ht _ Hin) eq_refl).
+  Qed.
+
+  Lemma Forall2_in_r {A B} (R : A -> B -> Prop) l1 l2 y :
+    Forall2 R l1 l2 -> In y l2 -> exists x, In x l1 /\ R x y.
+  Proof.
+    intros H. induction H as [|a b l1' l2' Hab _ IH]; intros Hin; [contradiction|].
+    destruct Hin as [->|Hin]; [exists a; split; [left; reflexivity|exact Hab]|].
+    destruct (IH Hin) as [x [Hx HR]]. exists x. split; [right; exact Hx|exact HR].
+  Qed.
+
+  Lemma oplain_class_P cd c ctx handed :
+    wf_class_facts D cd -> cd_id cd = c -> oplain ctx ->
+    (match cd_meta_ns cd with Some _ => true | None => ostr_eqb (some_ns (pns c)) handed end) = true ->
+    (match cd_meta_ns cd with Some _ => true | None => ostr_eqb handed ctx end) = true ->
+    oplain (class_P cd) /\ some_ns (class_P cd) = class_ns cd ctx /\ class_ns cd handed = class_ns cd ctx.
+  Proof.
+    intros W Hid Hctx H1 H2. unfold class_P, class_namespace, class_ns. rewrite Hid.
+    pose proof (wfc_meta_ns D cd W) as Hm. destruct (cd_meta_ns cd) as [n|].
+    - repeat split. exact Hm.
+    - apply (proj1 (opt_eqb_spec str_eqb str_eqb_eq _ _)) in H1. apply (proj1 (opt_eqb_spec str_eqb str_eqb_eq _ _)) in H2.
+      subst handed. repeat split; try assumption. rewrite <- H2 in Hctx.
+      destruct (pns c) as [[|x r]|]; try exact I; [reflexivity|exact Hctx].
+  Qed.
+
+  (* ---------------------------------------------------------------- one object *)
+  Lemma attr_events_plain (X : fdesc -> value) fl cns :
+    (forall f, In f fl -> is_kind KAttribute f = true -> reserved_attr (field_qname f None) = false) ->
+    plain_attrs (flat_map (fun f => if is_kind KAttribute f then spec_attribute cv D ign f cns (X f) else []) fl) = true.
+  Proof.
+    intros H. unfold plain_attrs. apply forallb_forall. intros e He.
+    apply in_flat_map in He as [f [Hf He]].
+    destruct (is_kind KAttribute f) eqn:Hk; [|contradiction].
+    unfold spec_attribute in He.
+    assert (Hq : field_qname f cns = field_qname f None).
+    { unfold field_qname, field_ns. unfold is_kind in Hk. destruct (fd_kind f); try discriminate Hk. reflexivity. }
+    assert (E : e = WAttr (field_qname f cns) (text_of cv D (fd_format f) (X f))).
+    { destruct (X f) as [| |t [|x l]| | | |]; try contradiction;
+        destruct (ign && negb (fd_required f) && match fd_default f with Some d => spec_default_eq d _ | None => false end);
+        try contradiction; destruct He as [<-|[]]; reflexivity. }
+    subst e. cbn [is_attr is_nil_attr andb]. rewrite Hq.
+    pose proof (H f Hf Hk) as Hr. unfold reserved_attr in Hr. apply orb_false_iff in Hr as [Hr _]. rewrite Hr. reflexivity.
+  Qed.
+
+  Lemma run_object : forall k fuel c fs handed ctx over fnil,
+      (5 * k <= fuel)%nat -> (forall q, over = Some q -> q <> []) -> oplain ctx ->
+      good k handed ctx over (VObj c fs) = true ->
+      renders fuel k ctx over fnil (VObj c fs).
+  Proof.
+    induction k as [|k IH]; intros fuel c fs handed ctx over fnil HF Hover Hctx Hg; unfold good in Hg;
+      repeat (apply andb_true_iff in Hg; destruct Hg as [Hg ?]); [discriminate Hg|].
+    rename Hg into Htyp. rename H1 into Hcache. rename H0 into Hinh. rename H into Htok.
+    destruct (typed_value_inv k c fs Htyp) as [cd [Hfind [Hnames Htyped]]].
+    destruct (find_cdesc_in D c cd Hfind) as [Hcd Hid].
+    pose proof (wf_class_of cd Hcd) as W.
+    destruct (cache_inv k c fs cd handed over Hfind Hcache) as [Hc1 Hc2].
+    destruct (inherit_inv k c fs cd handed ctx over Hfind Hinh) as [Hi1 Hi2].
+    pose proof (tokens_inv k c fs cd Hfind Htok) as Ht2.
+    destruct (oplain_class_P cd c ctx handed W Hid Hctx Hc1 Hi1) as [HoP [HP Hch]].
+    set (cns := class_ns cd ctx) in *.
+    assert (Hocns : oplain cns).
+    { unfold cns, class_ns. pose proof (wfc_meta_ns D cd W) as Hm. destruct (cd_meta_ns cd) as [[|x r]|]; try exact I; [exact Hm|exact Hctx]. }
+    assert (Hdecl : forall f, decl_ns cns (cd, f) = cns).
+    { intros f. unfold decl_ns, cns, class_ns. cbn [fst]. destruct (cd_meta_ns cd); reflexivity. }
+    destruct (Hreal cd Hcd) as [meta [Hm RC]]. rewrite Hid in Hm.
+    (* the element's name *)
+    set (q := match over with Some q => q | None => clark cns (class_local cd) end).
+    assert (Hlocal : class_local cd <> []).
+    { unfold class_local. pose proof (wfc_meta_name D cd W) as H1. pose proof (wfc_name D cd W) as H2.
+      destruct (cd_meta_name cd) as [[|x r]|]; try discriminate; intros E; rewrite E in H2; discriminate. }
+    assert (Hq : match over with Some ((_ :: _) as q0) => q0 | _ => m_qname meta end = q).
+    { unfold q. destruct over as [[|x r]|].
+      - exfalso. apply (Hover [] eq_refl). reflexivity.
+      - reflexivity.
+      - rewrite (rc_qname cd meta RC). change (meta_local_name cd) with (class_local cd).
+        rewrite build_qname_clark by exact Hlocal. rewrite HP. reflexivity. }
+    pose proof (class_vars_rel cd Hcd) as HR.
+    (* per-field facts for content_all *)
+    assert (Hfields : forall f, In f (cd_fields cd) ->
+       In f (cd_fields cd) /\ typed_field k f (lookup fs (fd_name f)) = true
+       /\ (forall c' fs', (lookup fs (fd_name f) = VObj c' fs'
+                            \/ exists t l, lookup fs (fd_name f) = VList t l /\ In (VObj c' fs') l) ->
+                           good k (ns_of q) cns (Some (field_qname f cns)) (VObj c' fs') = true)
+       /\ (forall t, lookup fs (fd_name f) = VList t [] -> fd_tokens f && fd_list f && fd_nillable f = false)).
+    { intros f Hin. split; [exact Hin|]. split; [apply Htyped; exact Hin|]. split; [|apply (Ht2 f Hin)].
+      intros c' fs' Hocc. unfold good, q.
+      pose proof (sub_all_occ _ _ c' fs' (Hc2 f Hin) Hocc) as Hx1. rewrite Hch in Hx1.
+      pose proof (sub_all_occ _ _ c' fs' (Hi2 f Hin) Hocc) as Hx2.
+      apply andb_true_iff; split; [apply andb_true_iff; split; [apply andb_true_iff; split|]|].
+      - apply (typed_occ k f _ c' fs' (Htyped f Hin) Hocc).
+      - exact Hx1.
+      - exact Hx2.
+      - apply (sub_all_occ _ _ c' fs' (proj2 (Ht2 f Hin)) Hocc). }
+    assert (IHobj : forall fuel' c' fs' fq fnil',
+               (5 * k <= fuel')%nat -> fq <> [] -> good k (ns_of q) cns (Some fq) (VObj c' fs') = true ->
+               renders fuel' k cns (Some fq) fnil' (VObj c' fs')).
+    { intros fuel' c' fs' fq fnil' HF' Hfq Hg'. apply IH with (handed := ns_of q); try assumption.
+      intros q0 E. injection E as <-. exact Hfq. }
+    destruct fuel as [|F]; [lia|].
+    destruct (content_all k (ns_of q) cns IHobj fs cd (cd_fields cd) (class_vars cd) F Hcd HoP HP Hdecl Hfields HR)
+      as [body [Hb1 [Hb2 [Hb3 Hb4]]]]; [lia|].
+    (* run *)
+    unfold renders. cbn [run]. rewrite Hm.
+    match goal with |- context [WStart ?t] => set (qq := t) end.
+    assert (Hqq : qq = q) by (unfold qq; exact Hq). clearbody qq. subst qq.
+    unfold next_attribute. rewrite (rc_attrs cd meta RC).
+    rewrite (attrs_all k c fs cd (cd_fields cd) (class_vars cd) Hcd HoP Hnames (fun f Hin => conj Hin (Htyped f Hin)) HR).
+    cbn [gbind app]. rewrite HP.
+    unfold next_value. rewrite (rc_content cd meta RC).
+    rewrite (next_value_noseq (VObj c fs) _ (fun var => lookup fs (v_name var))).
+    2:{ intros var Hin. apply filter_In in Hin as [Hin _].
+        destruct (Forall2_in_r _ _ _ var HR Hin) as [f [Hf [i ->]]].
+        pose proof (wfc_fields D cd W f Hf) as Hwff.
+        pose proof (build_var_facts D i (class_P cd) f Hwff HoP) as VF.
+        rewrite (vf_sequence f _ _ VF), (vf_name f _ _ VF). split; [apply (noseq_of cd f Hcd Hf)|].
+        apply (getattr_field c fs cd f Hnames Hf). }
+    2:{ lia. }
+    cbn [gbind].
+    change (fun vv : xvar * value => evs <- run' F (CValue (snd vv) (fst vv));; Ok (wrap_events (fst vv) evs)) with (step F).
+    rewrite Hb1. cbn [gbind].
+    rewrite (rc_nillable cd meta RC).
+    set (attrs := flat_map (fun f => if is_kind KAttribute f then spec_attribute cv D ign f cns (lookup fs (fd_name f)) else []) (cd_fields cd)).
+    eexists. split; [reflexivity|].
+    assert (Hplain : plain_attrs attrs = true).
+    { apply (attr_events_plain (fun f => lookup fs (fd_name f))). intros f Hf Hk. apply (wfc_reserved D cd W f Hf Hk). }
+    split; [|split; [|split; [reflexivity|discriminate]]].
+    - (* the events are the prescribed ones *)
+      cbn [app norm_nil is_nil_attr andb].
+      rewrite <- app_assoc. rewrite norm_nil_attrs by exact Hplain.
+      cbn [spec_object]. rewrite Hfind. fold cns. fold q.
+      rewrite (all_fields_own _ D cd (wfc_base D cd W)).
+      assert (Eattrs : flat_map (fun cf => if is_attribute_field cf
+                                           then spec_attribute cv D ign (snd cf) (decl_ns cns cf) (lookup fs (fd_name (snd cf)))
+                                           else []) (map (fun f => (cd, f)) (cd_fields cd)) = attrs).
+      { unfold attrs. rewrite flat_map_concat_map, map_map, <- flat_map_concat_map.
+        apply flat_map_ext. intros f. cbn [snd]. rewrite Hdecl. unfold is_attribute_field, is_kind. cbn [snd].
+        destruct (fd_kind f); reflexivity. }
+      rewrite Eattrs.
+      assert (Econtent : filter (fun cf => is_content_kind (fd_kind (snd cf))) (map (fun f => (cd, f)) (cd_fields cd))
+                         = map (fun f => (cd, f)) (filter (fun f => is_content_kind (fd_kind f)) (cd_fields cd))).
+      { clear. induction (cd_fields cd) as [|f l IHl]; [reflexivity|]. cbn [map filter snd].
+        destruct (is_content_kind (fd_kind f)); cbn [map]; rewrite IHl; reflexivity. }
+      rewrite Econtent.
+      rewrite spec_walk_noseq.
+      2:{ intros cf Hin. apply in_map_iff in Hin as [f [<- Hin]]. apply filter_In in Hin as [Hin _]. cbn [snd].
+          apply (noseq_of cd f Hcd Hin). }
+      2:{ lia. }
+      rewrite <- Hb2.
+      f_equal. f_equal.
+      destruct (fnil || cd_nillable cd) eqn:Enil; cbn [app andb].
+      + cbn [norm_nil]. rewrite ev_nil_is_nil.
+        rewrite (stays_empty_content body q Hb4 Hb3).
+        rewrite norm_nil_app by exact Hb3. cbn [norm_nil is_nil_attr andb].
+        destruct (no_content (norm_nil body)); cbn [negb andb app]; rewrite ?ev_nil_marker; reflexivity.
+      + rewrite norm_nil_app by exact Hb3. reflexivity.
+    - (* closed *)
+      rewrite app_comm_cons, app_assoc. apply closed_app; [reflexivity|discriminate].
+  Qed.
 
 End TA.
